@@ -488,9 +488,13 @@ PsBeginRelease(S, n) ==
     LET nd == Nd(S, n)
         cap == PsCap(S, n)
         ids == AllInds(S, n)
-    IN IF cap < INF /\ nd.count >= cap
-       THEN IF cap < 1 \/ cap > Len(ids) THEN Crash(S, "IndexError:ps-release")
-            ELSE Bind(PsStart(S, n, ids[cap]), LAMBDA T : PsUpdate(T, n))
+        \* the waiting customers (not sharing), in list order; the earliest arrival among them is started
+        \* (Python min(): the first minimal one)
+        wait == SelectSeq(ids, LAMBDA i : ~Cu(S, i).ws)
+        best == SetMin({Cu(S, wait[a]).arr : a \in DOMAIN wait})
+        pick == wait[SetMin({a \in DOMAIN wait : Cu(S, wait[a]).arr = best})]
+    IN IF cap < INF /\ nd.count >= cap /\ wait # <<>>
+       THEN Bind(PsStart(S, n, pick), LAMBDA T : PsUpdate(T, n))
        ELSE PsUpdate(S, n)
 
 ----------------------------------------------------------------------------
